@@ -110,10 +110,12 @@ def declaration_step(nstate: int, op: int, which: int, badkey: int, v: int) -> b
     post: _
     """
     hx.begin()
-    pl = ParameterList()
     vals = [[1, 2], None, "s"]           # (a parameter whose single value is None is a declared parameter too)
-    for i in range(nstate):
-        pl.add_parameter(NAMES[i], vals[i])
+    shared = {NAMES[i]: vals[i] for i in range(nstate)}
+    shared_copy = dict(shared)
+    sibling = ParameterList(shared)       # another list declared from the SAME dict object (a shared base configuration)
+    pl = ParameterList(shared)
+    sibling_build = sibling.build()
     snap = list(pl._parameters.items())
     snap_build = pl.build()
     name = hx.pick(NAMES, which)
@@ -165,6 +167,8 @@ def declaration_step(nstate: int, op: int, which: int, badkey: int, v: int) -> b
     hx.reach('applied')
     if raised is not None:
         return hx.end(hx.fail("valid declaration rejected", op=op, raised=raised))
+    if list(shared.items()) != list(shared_copy.items()) or sibling.build() != sibling_build:
+        return hx.end(hx.fail("a declaration update on one list changed the caller's dict or a sibling list", op=op))
     now = list(pl._parameters.items())
     if len(now) != len(exp_items):
         return hx.end(hx.fail("declaration after update", got=[k for k, _ in now], exp=[k for k, _ in exp_items]))
